@@ -15,6 +15,8 @@ claimed = {
 }
 claimed["C09"] = ("other", "Bounded symbolic execution of the real merge sorter, ReverseValues and ShuffleValues (go/ssa -> SMT) on arrays of n symbolic values: ranker as an (Ackermannized) uninterpreted function covers every total preorder in one run, an unconstrained ranker covers inconsistent rankers (termination via step budget + permutation), crypto/rand draws are symbolic. Exhaustive over all values, rankers and draws at each length <= bound.", "symbolic execution of go/ssa + SMT (z3, cvc5 fallback), uninterpreted-function ranker", "3/C09")
 claimed["C13"] = ("other", "One-step symbolic check of the real stack code against the LIFO model from every state of size <= capacity (capacities 1..4 and the default 16), constructors from 0..33 initial values; contents symbolic.", "symbolic execution of go/ssa + SMT (z3), one-step induction", "3/C13")
+claimed["C02"] = ("other", "One-step inductive symbolic check of the real Set code: pre-state any strictly ascending content of size <= N under a collator given as an (Ackermannized) uninterpreted function - default, reversed and coarse total preorders in one run - plus the real reflective collator for int and string; one operation with a symbolic value; asserts strict ascent, duplicate-freedom and agreement with the mathematical set.", "symbolic execution of go/ssa + SMT (z3, cvc5 fallback), uninterpreted-function collator, one-step induction", "3/C02")
+claimed["C03"] = ("other", "One-step inductive symbolic check of the real Catalog code against an insertion-ordered map model for key types int, string, rune, float64, any and *int (distinct pointers with symbolic pointees); every view compared with the model; Go map iteration order is a choice point (all orders for n<=3).", "symbolic execution of go/ssa + SMT (z3), one-step induction, symbolic map model", "3/C03")
 reasons = {}
 
 checks = []
